@@ -29,6 +29,7 @@ def run(prog, chk):
         "each split pair is stored into exactly one bucket: one append per yielded part, merged buckets are re-assigned with break after the first match, all four base/mark combinations are kept exactly once (R05.8)",
         "kerning lookups are registered, per OpenType tag, for exactly the languages the feature file declares for that tag (flat per-tag table over all declared language systems, default ['dflt']) (R05.9, shared with C20)",
     ]
+    chk.decided += ["scripts are folded into Common exactly when a glyph has a neutral script, Zyyy or Zinh (R05.11)"]
     chk.decided += ["every kerning class is defined under the unique name makeFeaClassName computed for it, unchanged (R05.10)"]
     chk.not_decided += ["what a shaper applies", "that common and script lookups never both hold the same glyph pair", "script / bidi classification of glyphs", "the kerning values themselves"]
     chk.guard(r051, prog, chk)
@@ -42,6 +43,7 @@ def run(prog, chk):
     from .c20 import r202
     chk.guard(r202, prog, chk, "R05.9")
     chk.guard(r0510, prog, chk)
+    chk.guard(r0511, prog, chk)
 
 
 # ----------------------------------------------------------------------------- R05.1
@@ -653,7 +655,38 @@ def r0510(prog, chk):
     chk.minimum("R05.10", 3)
 
 
+
+# ----------------------------------------------------------------------------- R05.11
+def r0511(prog, chk):
+    """Script-neutral glyphs (Common AND Inherited) take part in the kerning of whatever script they stand next to: wherever
+    the kern writer folds a glyph's scripts into `Common`, the test is an intersection with DFLT_SCRIPTS = {Zyyy, Zinh}
+    (an Inherited-only glyph that keeps `Zinh` gets the direction of an unknown script - LTR - and its pairs with
+    right-to-left letters are dropped as mixed-direction)."""
+    ix = prog.ix
+    um = ix.get_module("ufo2ft.util")
+    dv = um.constants.get("DFLT_SCRIPTS")
+    okc = isinstance(dv, ast.Set) and {getattr(e, "value", None) for e in dv.elts} == {"Zyyy", "Zinh"}
+    chk.ob("R05.11", "DFLT_SCRIPTS = {Zyyy, Zinh}", okc, um.relpath, detail=T(dv) if dv is not None else "", message="DFLT_SCRIPTS is no longer the set of both script-neutral values (Common, Inherited)")
+    n = 0
+    for fi in ix.functions.values():
+        if fi.module.name != KERN1:
+            continue
+        for st in A.stmts_of(fi.node):
+            if isinstance(st, ast.Assign) and isinstance(st.value, ast.Name) and st.value.id == "COMMON_SCRIPTS_SET" and isinstance(st.targets[0], ast.Name):
+                n += 1
+                v = st.targets[0].id
+                fs = facts(prog, fi, st)
+                ok = any(o == "truthy" and "DFLT_SCRIPTS" in l and v in l and "&" in l for o, l, r in fs)
+                chk.ob("R05.11", f"{fi.short}|{A.keytext(fi.node, st)}|folded into Common exactly when the glyph has a neutral script (Zyyy or Zinh)", ok, where(fi, st), detail=str(sorted(x[1] for x in fs if x[0] == "truthy")),
+                       message=f"{fi.short}: scripts are folded into Common under another test than `{v} & DFLT_SCRIPTS`: Inherited-only glyphs (combining marks, variation selectors, "
+                               f"ZWJ) are no longer script-neutral and lose their kerning against right-to-left letters")
+    need(n >= 1, "no folding of neutral scripts found in the kern writer")
+    chk.minimum("R05.11", 2)
+
+
 MUTANTS = [
+    M("Inherited-only glyphs are not folded into Common (seeded C05h)", "ufo2ft/featureWriters/kernFeatureWriter.py", "partitionByScript",
+      "scripts & DFLT_SCRIPTS", "scripts & COMMON_SCRIPTS_SET", rule="R05.11", count=2),
     M("class names truncated after the uniqueness check (seeded C05g)", "ufo2ft/featureWriters/ast.py", "makeGlyphClassDefinition",
       "classDef = ast.GlyphClassDefinition(className, glyphClass)", "className = className[:63]\nclassDef = ast.GlyphClassDefinition(className, glyphClass)", rule="R05.10"),
     M("every zero-valued pair dropped by a truthiness test", "ufo2ft/featureWriters/kernFeatureWriter.py", "KernFeatureWriter.getKerningPairs",
